@@ -137,6 +137,11 @@ func fineCancelStop(name string, stop Item) *Scenario {
 	s.FineFire = []int{1, 2}
 	s.FinePts = 500
 	s.Horizon = 3 * s.H
+	if stop.Do == "start" {
+		// `cancel(); election.Start(newCtx)`: the restarted instance follows its own old
+		// record until that has lapsed, then leads again
+		s.Horizon = 1*s.H + 61*ms + s.TTL + 3*s.H
+	}
 	s.LatencyBound = s.H/2 - ms
 	s.MaxSteps = 3000
 	return s
@@ -197,13 +202,15 @@ func finePlan(prop, tier string) []PlanItem {
 		items = append(items,
 			PlanItem{fineAcquire("fine/status-vs-becomeLeader", Item{Do: "status"}), p},
 			PlanItem{fineDemote("fine/status-vs-demotion", Item{Do: "status"}), p},
-			PlanItem{fineAcquire("fine/stop-vs-becomeLeader", Item{Do: "stop"}), p})
+			PlanItem{fineAcquire("fine/stop-vs-becomeLeader", Item{Do: "stop"}), p},
+			PlanItem{fineTwoWinners("fine/two-winners-of-one-instance"), p})
 	case "C02":
 		// no outside writer here: C02 assumes that only the elections touch the record
 		items = append(items,
 			PlanItem{fineAcquire("fine/stop-vs-becomeLeader", Item{Do: "stop"}), p},
 			PlanItem{fineAcquire("fine/stopctx-vs-becomeLeader", Item{Do: "stopctx", DeleteKey: true}), p},
-			PlanItem{fineGraceStop("fine/stop-vs-grace-expiry", Item{Do: "stop"}), p})
+			PlanItem{fineGraceStop("fine/stop-vs-grace-expiry", Item{Do: "stop"}), p},
+			PlanItem{fineCancelStop("fine/cancelctx-then-start", Item{Do: "start"}), p})
 	case "C09":
 		items = append(items,
 			PlanItem{fineAcquire("fine/stop-vs-becomeLeader", Item{Do: "stop"}), p},
@@ -220,7 +227,8 @@ func finePlan(prop, tier string) []PlanItem {
 	case "C08", "C19":
 		items = append(items, PlanItem{fineTwoWinners("fine/two-winners-of-one-instance"), p},
 			PlanItem{fineCancelStop("fine/cancelctx-then-stop", Item{Do: "stop"}), p},
-			PlanItem{fineCancelStop("fine/cancelctx-then-stopctx", Item{Do: "stopctx", DeleteKey: true}), p})
+			PlanItem{fineCancelStop("fine/cancelctx-then-stopctx", Item{Do: "stopctx", DeleteKey: true}), p},
+			PlanItem{fineCancelStop("fine/cancelctx-then-start", Item{Do: "start"}), p})
 		if prop == "C19" {
 			// a demotion that needs no store operation (ValidateTokenOrDemote with an already
 			// cancelled context) racing with the promotion and its callback goroutine
